@@ -454,3 +454,173 @@ Proof.
   - econstructor; try eassumption. eapply insn_rel_mono; eassumption.
   - econstructor; eassumption.
 Qed.
+
+(* ------------------------------------------------------------------ *)
+(* C. the writer's instruction areas, and the composition with C06        *)
+(* ------------------------------------------------------------------ *)
+
+(* the section reference u designates the bytes e inside the area that starts at section offset base *)
+Definition in_area (base : N) (area : list byte) (u : uexpr) (e : list byte) : Prop :=
+  base <= ue_off u /\ ue_len u = len e /\ bytes_at base area (ue_off u) (ue_len u) = e.
+
+Lemma written_insn_rel caf daf i (a : list byte) base pre rest d :
+  cfi_wf i = true -> sem caf daf d = MInsn i -> (forall e, expr_of d = Some e -> exists p, a = p ++ e) ->
+  insn_rel (in_area base (pre ++ a ++ rest)) caf daf (to_insn (base + len pre) (len a) d) i.
+Proof.
+  intros Hwf Hs Hex. exists d, (base + len pre), (len a). repeat split; try assumption.
+  - destruct (Hex e H) as (q & ->). unfold rd_uexpr. cbn [ue_off]. rewrite len_app. lia.
+  - destruct (Hex e H) as (q & ->). unfold rd_uexpr. cbn [ue_off ue_len]. apply bytes_at_here.
+Qed.
+
+(* one written instruction under the reader's lazy decoder *)
+Lemma decode_written_insn dbg be aa asz caf daf i b base pre rest dbg' :
+  cfi_wf i = true -> is_i8 daf = true -> write_insn dbg daf i = Ok b ->
+  (vendor_ok aa i = true /\
+   exists ri, insn_rel (in_area base (pre ++ b ++ rest)) caf daf ri i /\
+     CfiRun.decode dbg' (dp_of be aa asz) (base + len pre) (b ++ rest)
+     = It ri :: CfiRun.decode dbg' (dp_of be aa asz) (base + len pre + len b) rest)
+  \/ (vendor_ok aa i = false /\
+      CfiRun.decode dbg' (dp_of be aa asz) (base + len pre) (b ++ rest) = [Bad EUnknownCallFrameInstruction]).
+Proof.
+  intros Hi Hdaf Eb.
+  destruct (insn_read_by_reader_lem dbg be caf daf i b Hi Hdaf Eb) as (d & Hd & Hs & Hex & Hrd).
+  destruct (write_insn_decodes dbg be caf daf i b Hi Hdaf Eb) as (Hne & _).
+  specialize (Hrd dbg' asz aa (base + len pre) rest).
+  destruct (vendor_ok aa i) eqn:Hv.
+  - left. split; [reflexivity|]. exists (to_insn (base + len pre) (len b) d).
+    split; [apply written_insn_rel; assumption|].
+    apply rdec_cons; [exact Hne|]. cbn [dp_of CfiRun.d_be CfiRun.d_asize CfiRun.d_aarch64]. rewrite Hrd.
+    unfold vendor_ok in Hv. destruct aa; [reflexivity|]. destruct i; cbn in Hv |- *; try reflexivity. discriminate.
+  - right. split; [reflexivity|]. apply rdec_bad; [exact Hne|].
+    cbn [dp_of CfiRun.d_be CfiRun.d_asize CfiRun.d_aarch64]. rewrite Hrd.
+    apply vendor_bad in Hv as [-> ->]. reflexivity.
+Qed.
+
+Lemma decode_nops dbg dp off pad : all_nop pad = true ->
+  CfiRun.decode dbg dp off pad = map It (repeat INop (length pad)).
+Proof. intros H. apply rreads_all. apply nops_rread. exact H. Qed.
+
+Lemma write_insns_implc dbg be aa asz caf daf : forall l bs base pre pad,
+  forallb cfi_wf l = true -> is_i8 daf = true -> write_insns dbg daf l = Ok bs -> all_nop pad = true ->
+  forall dbg', implc (in_area base (pre ++ bs ++ pad)) caf daf aa l
+                     (CfiRun.decode dbg' (dp_of be aa asz) (base + len pre) (bs ++ pad)).
+Proof.
+  induction l as [|i r IH]; intros bs base pre pad Hwf Hdaf H Hpad dbg'.
+  - cbn [write_insns] in H. injection H as <-. cbn [app]. rewrite decode_nops by exact Hpad. constructor.
+  - cbn [write_insns] in H. cbn [forallb] in Hwf. apply andb_true_iff in Hwf. destruct Hwf as [Hi Hr].
+    destruct (write_insn dbg daf i) as [a| | |] eqn:Ea; try discriminate. cbn [bind] in H.
+    destruct (write_insns dbg daf r) as [b| | |] eqn:Eb; try discriminate. cbn [bind] in H. injection H as <-.
+    rewrite <- (app_assoc a b pad).
+    destruct (decode_written_insn dbg be aa asz caf daf i a base pre (b ++ pad) dbg' Hi Hdaf Ea)
+      as [(Hv & ri & Hrel & ->)|(Hv & ->)].
+    + apply implc_cons; [exact Hrel|exact Hv|].
+      specialize (IH b base (pre ++ a) pad Hr Hdaf eq_refl Hpad dbg').
+      rewrite len_app, N.add_assoc in IH.
+      replace (pre ++ a ++ b ++ pad) with ((pre ++ a) ++ b ++ pad) by (now rewrite <- app_assoc). exact IH.
+    + apply implc_bad. exact Hv.
+Qed.
+
+Lemma write_fde_insns_impl dbg be aa asz caf daf : forall (l : list (N * cfi)) prev bs base pre pad,
+  forallb fde_insn_wf l = true -> is_u8 caf = true -> is_i8 daf = true -> is_u32 prev = true ->
+  write_fde_insns dbg be caf daf prev l = Ok bs -> all_nop pad = true ->
+  forall dbg', impl (in_area base (pre ++ bs ++ pad)) caf daf aa prev l
+                    (CfiRun.decode dbg' (dp_of be aa asz) (base + len pre) (bs ++ pad)).
+Proof.
+  induction l as [|[off i] r IH]; intros prev bs base pre pad Hwf Hcaf Hdaf Hprev H Hpad dbg'.
+  - cbn [write_fde_insns] in H. injection H as <-. cbn [app]. rewrite decode_nops by exact Hpad. constructor.
+  - cbn [write_fde_insns] in H. cbn [forallb] in Hwf. apply andb_true_iff in Hwf. destruct Hwf as [Hi Hr].
+    unfold fde_insn_wf in Hi. cbn [fst snd] in Hi. apply andb_true_iff in Hi. destruct Hi as [Hoff Hi].
+    destruct (write_advance_loc dbg be caf prev off) as [a| | |] eqn:Ea; try discriminate. cbn [bind] in H.
+    destruct (write_insn dbg daf i) as [b| | |] eqn:Eb; try discriminate. cbn [bind] in H.
+    destruct (write_fde_insns dbg be caf daf off r) as [c| | |] eqn:Ec; try discriminate. cbn [bind] in H.
+    injection H as <-.
+    specialize (IH off c base (pre ++ a ++ b) pad Hr Hcaf Hdaf Hoff Ec Hpad dbg').
+    replace (base + len (pre ++ a ++ b)) with (base + len (pre ++ a) + len b) in IH by (rewrite !len_app; lia).
+    rewrite <- ?app_assoc in IH |- *.
+    destruct (decode_written_insn dbg be aa asz caf daf i b base (pre ++ a) (c ++ pad) dbg' Hi Hdaf Eb) as [D|D].
+    + destruct D as (Hv & ri & Hrel & Hdec).
+      rewrite <- ?app_assoc in Hrel.
+      destruct (write_advance_loc_ok dbg be caf prev off a Hcaf Hprev Hoff Ea)
+        as [[-> ->]|(delta & Hlt & Hmul & Hdl & ->)].
+      * rewrite app_nil_r in Hdec, IH. cbn [app] in *. rewrite Hdec. apply impl_same; assumption.
+      * rewrite (rdec_cons dbg' (dp_of be aa asz) (base + len pre) (adv_enc be delta) (b ++ c ++ pad) (IAdvanceLoc delta)
+                   (adv_enc_nonempty be delta) (rp_adv_enc dbg' be asz aa (base + len pre) delta _ Hdl)).
+        rewrite len_app, N.add_assoc in Hdec, IH. rewrite Hdec.
+        apply is_u32_iff in Hoff.
+        apply impl_adv; try assumption. unfold two64. lia.
+    + destruct D as (Hv & Hdec).
+      destruct (write_advance_loc_ok dbg be caf prev off a Hcaf Hprev Hoff Ea)
+        as [[-> ->]|(delta & Hlt & Hmul & Hdl & ->)].
+      * rewrite app_nil_r in Hdec. cbn [app] in *. rewrite Hdec. apply impl_same_bad. exact Hv.
+      * rewrite (rdec_cons dbg' (dp_of be aa asz) (base + len pre) (adv_enc be delta) (b ++ c ++ pad) (IAdvanceLoc delta)
+                   (adv_enc_nonempty be delta) (rp_adv_enc dbg' be asz aa (base + len pre) delta _ Hdl)).
+        rewrite len_app, N.add_assoc in Hdec. rewrite Hdec.
+        apply is_u32_iff in Hoff.
+        apply impl_adv_bad; try assumption. unfold two64. lia.
+Qed.
+
+(* what a row of the reader's table model says, against a script row: same span, args size, CFA, and for
+   EVERY register the same rule, expression operands designating (X) the bytes of the script's expression *)
+Definition row_sees (X : uexpr -> list byte -> Prop) (r : CfiRun.row) (xr : xrow) : Prop :=
+  CfiRun.r_start r = xr_start xr /\ CfiRun.r_end r = xr_end xr /\ CfiRun.r_args r = xr_args xr /\
+  cfa_rel X (CfiRun.r_cfa r) (xr_cfa xr) /\
+  forall g, orule_rel X (CfiRun.rm_get g (CfiRun.r_regs r)) (xlookup g (xr_rules xr)).
+
+Lemma row_sees_compose X r sr xr : CfiRunProofs.row_equiv r sr -> srow_rel X sr xr -> row_sees X r xr.
+Proof.
+  intros (A1 & A2 & A3 & A4 & A5) (B1 & B2 & B3 & B4 & B5). unfold row_sees.
+  rewrite A1, A2, A3, A4. repeat split; try assumption. intros g. rewrite A5. apply lookup_rel. exact B5.
+Qed.
+
+Lemma Forall2_compose {A B C} (P : A -> B -> Prop) (Q : B -> C -> Prop) (R : A -> C -> Prop) :
+  (forall a b c, P a b -> Q b c -> R a c) ->
+  forall l1 l2 l3, Forall2 P l1 l2 -> Forall2 Q l2 l3 -> Forall2 R l1 l3.
+Proof.
+  intros H l1 l2 l3 H1. revert l3. induction H1 as [|a b l1 l2 Hab _ IH]; intros l3 H2; inversion H2; subst; constructor.
+  - eapply H; eassumption.
+  - apply IH. assumption.
+Qed.
+
+(* an expression reference lies in the CIE's or in the FDE's instruction area *)
+Definition in2 (cbase : N) (carea : list byte) (fbase : N) (farea : list byte) (u : uexpr) (e : list byte) : Prop :=
+  in_area cbase carea u e \/ in_area fbase farea u e.
+
+Definition mk_fde_in (be aa : bool) (asz caf : N) (daf : Z) (init range coff : N) (carea : list byte)
+           (foff : N) (farea : list byte) : CfiRun.fde_in :=
+  {| CfiRun.f_caf := caf; CfiRun.f_daf := daf; CfiRun.f_asize := asz; CfiRun.f_be := be; CfiRun.f_aarch64 := aa;
+     CfiRun.f_init := init; CfiRun.f_range := range; CfiRun.f_cie_off := coff; CfiRun.f_cie := carea;
+     CfiRun.f_fde_off := foff; CfiRun.f_fde := farea |}.
+
+(* THE composition: the unwind table the reader model (C06) computes from two written instruction areas, at
+   whatever section offsets they lie and whatever nop padding follows them, is the table of the script
+   machine — with the context's storage limits, any reader vendor, any build mode *)
+Theorem rows_by_script_areas dbg be aa asz caf daf (lc : list cfi) (lf : list (N * cfi)) ci fi pad1 pad2 :
+  forallb cfi_wf lc = true -> forallb fde_insn_wf lf = true -> is_u8 caf = true -> is_i8 daf = true ->
+  asz_ok asz ->
+  write_insns dbg daf lc = Ok ci -> write_fde_insns dbg be caf daf 0 lf = Ok fi ->
+  all_nop pad1 = true -> all_nop pad2 = true ->
+  forall dbg' caps cx init range coff foff,
+    CfiRun.cap_full (max_stack caps) 0 = false ->
+    let fin := mk_fde_in be aa asz caf daf init range coff (ci ++ pad1) foff (fi ++ pad2) in
+    let scr := script_rows_lim caps aa asz init range lc lf in
+    Forall2 (row_sees (in2 coff (ci ++ pad1) foff (fi ++ pad2))) (fst (fst (CfiRun.fde_rows dbg' caps fin cx))) (fst scr) /\
+    snd (fst (CfiRun.fde_rows dbg' caps fin cx)) = snd scr.
+Proof.
+  intros Hlc Hlf Hcaf Hdaf Hasz Hci Hfi Hp1 Hp2 dbg' caps cx init range coff foff Hcap fin scr.
+  destruct (CfiRunProofs.model_eq_spec dbg' caps fin cx (valid_asize_of asz Hasz) Hcap) as [M1 M2].
+  set (X := in2 coff (ci ++ pad1) foff (fi ++ pad2)).
+  pose proof (write_insns_implc dbg be aa asz caf daf lc ci coff [] pad1 Hlc Hdaf Hci Hp1 dbg') as I1.
+  pose proof (write_fde_insns_impl dbg be aa asz caf daf lf 0 fi foff [] pad2 Hlf Hcaf Hdaf eq_refl Hfi Hp2 dbg') as I2.
+  change (len []) with 0 in I1, I2. rewrite N.add_0_r in I1, I2. cbn [app] in I1, I2.
+  apply (implc_mono _ X) in I1; [|intros u e H; left; exact H].
+  apply (impl_mono _ X) in I2; [|intros u e H; right; exact H].
+  pose proof (rows_sim X caf daf aa caps (CfiRunProofs.sparams_of fin) eq_refl eq_refl asz init range lc lf _ _
+                       eq_refl Hcap I1 I2) as [S1 S2].
+  unfold CfiRunProofs.spec_of in M1, M2.
+  cbn [fin mk_fde_in CfiRun.f_dparams CfiRun.f_be CfiRun.f_asize CfiRun.f_aarch64 CfiRun.f_cie_off CfiRun.f_cie
+       CfiRun.f_fde_off CfiRun.f_fde CfiRun.f_init CfiRun.f_range] in M1, M2.
+  fold (dp_of be aa asz) in M1, M2. fold fin in M1, M2.
+  split.
+  - eapply Forall2_compose; [|exact M1|exact S1]. intros a b c0. apply row_sees_compose.
+  - rewrite M2. exact S2.
+Qed.
